@@ -39,3 +39,21 @@ def tor2_case(curve, P1, P2=None):
 def stored_identity_case(curve, P1, P2=None):
     """an operand is a PointJacobi object that stores a representation of the identity (Z == 0, or the (x, 0, z) marker)"""
     return _cls(P1, curve) in ("Oz", "Oy") or _cls(P2, curve) in ("Oz", "Oy")
+
+
+def f7_case(curve_name, string):
+    """secp112r2 (cofactor 4): the encoded curve point P has n*P of order 2 (P of order 2 or 2n), which PointJacobi reads as INFINITY"""
+    import ecdsa.curves as cv
+    from contracts.keys_load import spec_point
+    curve = getattr(cv, curve_name)
+    c = curve.curve
+    if c.cofactor() == 1:
+        return False
+    pt = spec_point(curve, string, validate=False)
+    if pt is None:
+        return False
+    p, a, b = c.p(), c.a(), c.b()
+    if (pt[1] ** 2 - (pt[0] ** 3 + a * pt[0] + b)) % p:
+        return False
+    nP = EC.mul(curve.order, pt, p, a)
+    return nP is not EC.O and nP[1] % p == 0
